@@ -37,7 +37,10 @@ def units(ctx):
     T = 3000 if ctx.thorough else 150
     for v in VARIANTS:
         for m in MS:
-            us.append((v, m, T, ctx.thorough, ctx.seed))
+            us.append((v, m, T, ctx.thorough, ctx.seed, "diag"))
+            if v not in ("PaVeBa", "Auer"):
+                # strongly correlated posterior (rho = 0.95): the per-objective extent must still be scale * marginal std
+                us.append((v, m, T, ctx.thorough, ctx.seed, "corr"))
     return us
 
 
@@ -89,7 +92,7 @@ def miss_probability(kind, meas, variant, m, t, sigma2, stub_cov):
 
 
 def run_unit(unit, only=None):
-    variant, m, T, thorough, seed = unit
+    variant, m, T, thorough, seed, covkind = unit
     core.import_vopy()
     res = core.new_result()
     K_real = 2
@@ -98,6 +101,10 @@ def run_unit(unit, only=None):
     alg0 = stepmc.build_template(variant, spec, K_real, m, 0.1, delta=0.1, noise_var=0.01, contraction=1.0)
     stub_sd = np.array([0.3 + 0.2 * d for d in range(m)])
     stub_cov = np.diag(stub_sd ** 2)
+    if covkind == "corr":
+        R = np.full((m, m), 0.95 if m == 2 else 0.9)
+        np.fill_diagonal(R, 1.0)
+        stub_cov = np.diag(stub_sd) @ R @ np.diag(stub_sd)
     if variant in ("PaVeBa", "Auer"):
         stub_cov = np.eye(m)
     for i in range(K_real):
@@ -164,7 +171,7 @@ def run_unit(unit, only=None):
                 res["violations"].append(core.violation(PROPERTY, {"kind": "not-monotone-in-delta", "alg": variant}, {"unit": list(unit), "cfg": [sigma2, K, DELTAS[0]]},
                                                         "non-increasing in delta", scales_for_delta, f"{variant}: round-1 region size is not monotone in delta: {scales_for_delta}"))
                 return res
-    res["outcomes"].append(f"{variant}:{m}:{worst[0]:.3f}")
+    res["outcomes"].append(f"{variant}:{m}:{covkind}:{worst[0]:.3f}")
     core.bump(res, "configs")
     res["samples"].append({"variant": variant, "m": m, "rounds": T, "worst_total_over_delta": worst[0], "at_sigma2_K_delta": worst[1]})
     return res
@@ -172,7 +179,7 @@ def run_unit(unit, only=None):
 
 def replay_case(case):
     u = case["unit"]
-    res = run_unit((u[0], u[1], u[2], u[3], u[4]), only=case["cfg"])
+    res = run_unit((u[0], u[1], u[2], u[3], u[4], u[5] if len(u) > 5 else "diag"), only=case["cfg"])
     return res["violations"]
 
 
